@@ -43,7 +43,11 @@ def judge(trace, mod, tmp, split=None):
         msg = check_files(trace[:split], mod, tmp)
         if msg:
             return "after the first prove() (of two): " + msg
+        if split % 2:
+            backends.failed_prove(mod, tmp, ("witness.wtns", "circuit.r1cs"))      # ... and a third one in between that fails and is caught
         backends.apply_trace(trace[split:], mod, vars_)
+        if len(trace) % 2:
+            backends.failed_prove(mod, tmp, ("circuit.r1cs", "witness.wtns"))
         msg = check_files(trace, mod, tmp)
         return ("after the second prove(): " + msg) if msg else None
     backends.apply_trace(trace, mod)
